@@ -44,22 +44,27 @@ RdItems(s, i, st) ==
   ELSE LET it == RdItem(s, i) IN
        IF ~it.ok THEN [st EXCEPT !.ok = FALSE]
        ELSE LET rk == IF st.inT THEN TimeRank(it.des) ELSE DateRank(it.des) IN
-            IF rk = 0 \/ rk <= st.rank \/ (it.fd > 0 /\ rk # 7) \/ st.fd > 0 THEN [st EXCEPT !.ok = FALSE]
+            IF rk = 0 \/ rk <= st.rank \/ (it.fd > 0 /\ rk < 5) \/ st.fd > 0 THEN [st EXCEPT !.ok = FALSE]
             ELSE RdItems(s, it.nx,
                    [st EXCEPT !.rank = rk, !.n = @ + 1,
                               !.y = IF rk = 1 THEN it.v ELSE @, !.mo = IF rk = 2 THEN it.v ELSE @,
                               !.w = IF rk = 3 THEN it.v ELSE @, !.d = IF rk = 4 THEN it.v ELSE @,
                               !.h = IF rk = 5 THEN it.v ELSE @, !.mi = IF rk = 6 THEN it.v ELSE @,
-                              !.s = IF rk = 7 THEN it.v ELSE @, !.fn = IF rk = 7 THEN it.fn ELSE @,
-                              !.fd = IF rk = 7 THEN it.fd ELSE @])
+                              !.s = IF rk = 7 THEN it.v ELSE @, !.fn = IF it.fd > 0 THEN it.fn ELSE @,
+                              !.fd = IF it.fd > 0 THEN it.fd ELSE @, !.fr = IF it.fd > 0 THEN rk ELSE @,
+                              !.nd = IF rk <= 4 THEN @ + 1 ELSE @])
 RdIsoDuration(s) ==
   LET sg == IF ChAt(s, 1) = 45 THEN -1 ELSE 1
       i0 == IF ChAt(s, 1) \in {43, 45} THEN 2 ELSE 1
       st0 == [ok |-> TRUE, sign |-> sg, inT |-> FALSE, sawT |-> FALSE, rank |-> 0, n |-> 0, y |-> BZero, mo |-> BZero, w |-> BZero, d |-> BZero,
-              h |-> BZero, mi |-> BZero, s |-> BZero, fn |-> 0, fd |-> 0]
+              h |-> BZero, mi |-> BZero, s |-> BZero, fn |-> 0, fd |-> 0, fr |-> 0, nd |-> 0]
   IN IF Up(ChAt(s, i0)) # 80 THEN [ok |-> FALSE]
      ELSE LET r == RdItems(s, i0 + 1, st0) IN
-          IF ~r.ok \/ r.n = 0 THEN [ok |-> FALSE] ELSE r
+          IF ~r.ok \/ r.n = 0 \/ (r.sawT /\ r.rank < 5) THEN [ok |-> FALSE] ELSE r
+\* nanoseconds denoted by the time part (the fraction belongs to the unit of rank fr: 5 hours, 6 minutes, 7 seconds)
+IsoTimeNs(t) ==
+  BAdd(BMul(t.h, B3600E9), BAdd(BMul(t.mi, B60E9), BAdd(BMulE9(t.s),
+       BMulSmall(BOf(t.fn), CASE t.fr = 5 -> 3600 [] t.fr = 6 -> 60 [] OTHER -> 1))))
 
 \* ---- span helpers ---------------------------------------------------------------------------
 \* nanoseconds of seconds-and-smaller units of a span record
@@ -77,7 +82,7 @@ HighSame(a, b, R) == \A k \in (R + 2)..10 : a[Fields[k]] = b[Fields[k]]
 \* ---- ISO events ---------------------------------------------------------------------------------
 IsoSpanWhy(r) ==
   LET t == RdIsoDuration(r.text)  o == r.o IN
-  IF ~t.ok THEN "printed span is not a valid ISO 8601 duration"
+  IF ~t.ok \/ t.fr \notin {0, 7} THEN "printed span is not a valid ISO 8601 duration (fractions on seconds only)"
   ELSE LET sg == t.sign
            S(b) == IF sg < 0 THEN BNeg(b) ELSE b
            secNs == S(BAdd(BMulE9(t.s), BOf(t.fn)))
@@ -91,7 +96,7 @@ IsoSpanWhy(r) ==
 
 IsoSdWhy(r) ==
   LET t == RdIsoDuration(r.text)  N == BNanosOfApi(r.o[1], r.o[2]) IN
-  IF ~t.ok THEN "printed duration is not a valid ISO 8601 duration"
+  IF ~t.ok \/ t.fr \notin {0, 7} THEN "printed duration is not a valid ISO 8601 duration (fractions on seconds only)"
   ELSE IF t.y # BZero \/ t.mo # BZero \/ t.w # BZero \/ t.d # BZero THEN "ISO duration text has calendar units"
   ELSE LET tot == BAdd(BMul(t.h, B3600E9), BAdd(BMul(t.mi, B60E9), BAdd(BMulE9(t.s), BOf(t.fn))))
            sgn == IF t.sign < 0 THEN BNeg(tot) ELSE tot
@@ -195,8 +200,35 @@ FrParseWhy(r) ==
              ELSE ""
        IN IF spanWhy # "" THEN spanWhy ELSE sdWhy
 
+\* ---- the ISO 8601 duration parser on texts of the grammar ------------------------------------------
+IsoParseWhy(r) ==
+  LET t == RdIsoDuration(r.text) IN
+  IF ~t.ok THEN "harness: generated ISO duration is outside the reader's grammar"
+  ELSE IF r.span.st = "panic" \/ r.sd.st = "panic" THEN "the ISO duration parser panicked"
+  ELSE LET S(b) == IF t.sign < 0 THEN BNeg(b) ELSE b
+           T == IsoTimeNs(t)
+           calFits == BLe(t.y, BOf(19998)) /\ BLe(t.mo, BOf(239976)) /\ BLe(t.w, BOf(1043497)) /\ BLe(t.d, BOf(7304484))
+           timeFits == BLe(t.h, BOf(175307616)) /\ BLe(t.mi, BMulSmall(BOf(1051845696), 10)) /\ BLe(t.s, BAdd(BMul(BOf(631107417), BOf(1000)), BOf(600)))
+           hasCal == t.y # BZero \/ t.mo # BZero \/ t.w # BZero \/ t.d # BZero
+           g == r.span.p
+           spanWhy ==
+             IF ~calFits THEN (IF r.span.st = "err" THEN "" ELSE "ISO parse: a calendar unit beyond its limit was accepted")
+             ELSE IF r.span.st # "ok" THEN (IF timeFits THEN "the ISO parser refuses a duration within the unit limits" ELSE "")
+             ELSE IF <<BOf(g.y), BOf(g.mo), BOf(g.w), BOf(g.d)>> # <<S(t.y), S(t.mo), S(t.w), S(t.d)>> THEN "ISO parse: a calendar unit differs from the text"
+             ELSE IF LowNs(g, 5) # S(T) THEN "ISO parse: the time units do not add up to the text"
+             ELSE IF timeFits /\ BOf(g.h) # S(t.h) THEN "ISO parse: hours differ from the text"
+             ELSE IF timeFits /\ t.fr # 5 /\ g.mi # S(t.mi) THEN "ISO parse: minutes differ from the text"
+             ELSE ""
+           sdWhy ==
+             IF hasCal THEN (IF r.sd.st = "err" THEN "" ELSE "ISO parse_duration accepted calendar units")
+             ELSE IF r.sd.st # "ok" THEN (IF t.nd = 0 THEN "ISO parse_duration refuses a time-only duration" ELSE "")
+             ELSE IF BNanosOfApi(r.sd.p[1], r.sd.p[2]) # S(T) THEN "ISO parse_duration: not the total of the text"
+             ELSE ""
+       IN IF spanWhy # "" THEN spanWhy ELSE sdWhy
+
 Why(r) ==
   CASE r.op = "fr_parse" -> FrParseWhy(r)
+    [] r.op = "iso_parse" -> IsoParseWhy(r)
     [] r.op = "iso_span" -> IsoSpanWhy(r)
     [] r.op = "iso_sd"   -> IsoSdWhy(r)
     [] r.op = "fr_span"  -> FrSpanWhy(r)
